@@ -31,6 +31,9 @@ def run(chk, repo, tier):
     from . import extent_rules as X
     from .prop_flow import own_storage_rule
     own_storage_rule(chk, repo, 'C05-o')
+    # a product wavefront owns its tilt list: tilting it must not tilt the wavefront it was made from
+    from . import common as _common5
+    _common5.mul_concat(chk, repo, 'C05-o')
     from .prop_flow import skip_rule as _skip_rule
     _skip_rule(chk, repo, 'C05-o')
     with chk.guard(['C05-e'], 'propagate._mask_shift'):
